@@ -67,39 +67,43 @@ def vocabulary(repo, res):
     tf = mod.func("_auto_positive_symbol")
     res.fn(tf)
     loops = [n for n in tf.body if isinstance(n, ast.For)]
-    if len(loops) != 1:
+    if len(loops) != 1 or not isinstance(loops[0].target, ast.Tuple):
         raise AnalysisError(f"{tf.where()}: token loop not found")
     lp = loops[0]
-    name_if = [n for n in lp.body if isinstance(n, ast.If) and norm(n.test) == "tokNum == token.NAME"]
-    if len(name_if) != 1:
-        raise AnalysisError(f"{tf.where()}: NAME branch not found")
-    ni = name_if[0]
-    ok = True
-    n_pass = n_sym = 0
-    for p in enum_paths(ni.body):
-        fm = dict((t, tr) for t, tr, _ in path_facts(p))
-        stm = [ev[1] for ev in p if ev[0] == "stmt"]
-        appended = [s for s in stm if isinstance(s, ast.Expr) and isinstance(s.value, ast.Call) and norm(s.value.func) in ("result.append", "result.extend")]
-        passes = [s for s in appended if norm(s.value) == "result.append((token.NAME, name))"]
-        syms = [s for s in appended if norm(s.value.func) == "result.extend"]
-        if passes:
+    from engine.sem import summarise
+
+    tk = norm(lp.target.elts[0])
+    sums = summarise(tf, body=lp.body, keep={tk, norm(lp.target.elts[1]), "result"})
+    NAME = f"{tk}[0] == token.NAME"
+    NM = f"{tk}[1]"
+    vocab = lambda x: x.has(f"{NM} in global_dict", True) and (x.has(f"isinstance(global_dict[{NM}], (Basic, type))", True) or x.has(f"callable(global_dict[{NM}])", True))
+    SYM = lambda name_expr: f"result.extend([(token.NAME, 'Symbol'), (token.OP, '('), (token.NAME, repr({name_expr})), (token.OP, ','), (token.NAME, 'positive'), (token.OP, '='), (token.NAME, 'True'), (token.OP, ')')])"
+    ok = ok_other = ok_alias = True
+    n_pass = n_sym = n_other = 0
+    seen_alias = seen_plain = False
+    for x in sums:
+        eff = [e for e in x.effects if e not in ("continue", "pass")]
+        if x.has(NAME, False):
+            n_other += 1
+            ok_other &= eff == [f"result.append(({tk}[0], {tk}[1]))"]
+        elif x.has(NAME, True) and vocab(x):
             n_pass += 1
-            # only for names bound in global_dict to a sympy class / callable
-            ok &= fm.get("name in global_dict") is True and (fm.get("isinstance(obj, (Basic, type))") is True or fm.get("callable(obj)") is True or fm.get("isinstance(obj, (Basic, type)) or callable(obj)") is True)
-            ok &= not syms
-        else:
+            ok &= eff == [f"result.append((token.NAME, {NM}))"]
+        elif x.has(NAME, True):
             n_sym += 1
-            ok &= len(syms) == 1
-            if syms:
-                txt = norm(syms[0].value)
-                ok &= "(token.NAME, 'Symbol')" in txt and "(token.NAME, repr(used_name))" in txt and "(token.NAME, 'positive')" in txt and "(token.NAME, 'True')" in txt
-        ok &= len(appended) == 1
-    res.check(ok and n_pass >= 1 and n_sym >= 1, "transformer:names", tf.where(ni), "every NAME token is either a vocabulary name or is replaced by Symbol('<name>', positive=True); nothing else is emitted for a NAME", rid=r1)
-    other = ni.orelse
-    res.check(len(other) == 1 and norm(other[0]) == "result.append((tokNum, tokVal))", "transformer:other-tokens", tf.where(), "non-NAME tokens pass through unchanged", rid=r1)
-    un = [n for n in walk_no_nested(tf.node) if isinstance(n, ast.Assign) and norm(n.targets[0]) == "used_name"]
-    vals = sorted(norm(n.value) for n in un)
-    res.check(vals == ["inv_name_alternatives[str(name)]", "str(name)"], "transformer:alias-map", tf.where(), "the symbol name is the canonical spelling from the alias map, else the name itself", found=vals, rid=r1)
+            a_ = SYM(f"inv_name_alternatives[str({NM})]")
+            p_ = SYM(f"str({NM})")
+            ok &= eff in ([a_], [p_])
+            seen_alias |= eff == [a_]
+            seen_plain |= eff == [p_]
+        else:
+            ok = False
+    res.check(ok and n_pass >= 1 and n_sym >= 1, "transformer:names", tf.where(lp), "every NAME token is either a vocabulary name (bound in global_dict to a sympy class / callable) or is replaced by Symbol('<name>', positive=True); nothing else is emitted for a NAME", found=[(sorted(x.facts), x.effects) for x in sums][:2], rid=r1)
+    res.check(ok_other and n_other >= 1, "transformer:other-tokens", tf.where(), "non-NAME tokens pass through unchanged", rid=r1)
+    # alias lookup first, the name itself only when the lookup fails (KeyError handler)
+    tr = [n for n in ast.walk(tf.node) if isinstance(n, ast.Try)]
+    handler_ok = len(tr) == 1 and len(tr[0].handlers) == 1 and norm(tr[0].handlers[0].type) == "KeyError" and any("inv_name_alternatives[" in norm(x_) for x_ in ast.walk(ast.Module(body=tr[0].body, type_ignores=[])) if isinstance(x_, ast.Subscript))
+    res.check(seen_alias and seen_plain and handler_ok, "transformer:alias-map", tf.where(), "the symbol name is the canonical spelling from the alias map, else (KeyError) the name itself", found=(seen_alias, seen_plain, handler_ok), rid=r1)
     q = mod.imports.get("inv_name_alternatives")
     res.check(q == "unyt._unit_lookup_table.inv_name_alternatives", "transformer:alias-source", PAR, "aliases come from the generated inverse name table", found=q, rid=r1)
 
@@ -192,6 +196,14 @@ def printer_parser(repo, res):
             if end[0] == "return" and isinstance(end[1].value, ast.Constant) and isinstance(end[1].value.value, str):
                 facts = [(tx, tr) for tx, tr, _ in path_facts(p) if tr]
                 cases.append((meth, end[1].value.value, facts[-1][0] if facts else "", fn.where(end[1])))
+            elif end[0] == "return" and isinstance(end[1].value, ast.Call) and isinstance(end[1].value.func, ast.Attribute) and end[1].value.func.attr == "get":
+                # special cases kept in a mapping: {table symbol: printed text}.get(text, text)
+                d = end[1].value.func.value
+                if isinstance(d, ast.Name) and d.id in uo.assigns:
+                    d = uo.assigns[d.id][-1]
+                if isinstance(d, ast.Dict) and all(isinstance(k, ast.Constant) and isinstance(v, ast.Constant) for k, v in zip(d.keys, d.values)):
+                    for k, v in zip(d.keys, d.values):
+                        cases.append((meth, v.value, f"unit_str == {k.value!r}", fn.where(end[1])))
     for meth, lit, cond, where in cases:
         # which unit does the special case stand for?
         stands = None
@@ -213,16 +225,21 @@ def persistence(repo, res):
         res.fn(fn)
         calls = [norm(c) for c in ast.walk(fn.node) if isinstance(c, ast.Call)]
         res.check(pat in calls, f"writer:{q}", fn.where(), f"{q} must persist the unit as {pat}", found=[c for c in calls if "units" in c][:4], rid=r4)
+    from engine.pat import find_all
+    from engine.sem import summarise
+
     fn = arr.func("unyt_array.__setstate__")
     res.fn(fn)
-    calls = [norm(c) for c in ast.walk(fn.node) if isinstance(c, ast.Call)]
-    res.check("Unit(unit, registry=registry)" in calls, "reader:__setstate__", fn.where(), "unpickling parses the stored unit text in the restored registry", rid=r4)
+    st = fn.params[1]
+    effs = [e for x in summarise(fn) for e in x.effects]
+    res.check(any(e.startswith(f"self.units = Unit({st}[0][0], registry=") for e in effs), "reader:__setstate__", fn.where(), "unpickling parses the stored unit text (first field of the prepended pair) in the restored registry", found=[e for e in effs if "self.units" in e], rid=r4)
     fn = arr.func("unyt_array.from_hdf5")
-    calls = [norm(c) for c in ast.walk(fn.node) if isinstance(c, ast.Call)]
-    res.check("cls(data, units, registry=registry)" in calls and "dataset.attrs.get('units', '')" in calls, "reader:from_hdf5", fn.where(), "from_hdf5 rebuilds the array from the stored unit text in the stored registry", rid=r4)
+    b = find_all(fn.node, ["__u = __d.attrs.get('units', '')", "cls(__data, __u, registry=__r)"])
+    res.check(b is not None, "reader:from_hdf5", fn.where(), "from_hdf5 rebuilds the array from the stored unit text in the stored registry", rid=r4)
     fn = arr.func("loadtxt")
-    calls = [norm(c) for c in ast.walk(fn.node) if isinstance(c, ast.Call)]
-    res.check("unyt_array(arr, unit)" in calls, "reader:loadtxt", fn.where(), "loadtxt attaches the unit text of each column", rid=r4)
+    # each column is wrapped with the unit text found in the header line for that column
+    b = find_all(fn.node, ["unyt_array(__col, __unit)"])
+    res.check(b is not None, "reader:loadtxt", fn.where(), "loadtxt attaches the unit text of each column", rid=r4)
     # no process-global memo between the stored text and the unit rebuilt from it
     from rules import memo_rules
 
